@@ -220,7 +220,9 @@ func (check typecheck) shift(n *node) error {
 			return n.cfgErrorf("invalid operation: shift count type %v, must be integer", c1.typ.id())
 		}
 	case isInt(t1):
-		// nothing to do
+		if c1.rval.IsValid() && !isUint(t1) && vInt(c1.rval) < 0 {
+			return n.cfgErrorf("invalid operation: negative shift count %d", vInt(c1.rval))
+		}
 	case c0.rval.IsValid() && c1.rval.IsValid() && isFloat(t1) && vFloat(c1.rval) >= 0 && vFloat(c1.rval) == math.Trunc(vFloat(c1.rval)):
 		// The count of a constant shift must have an integer value, of any numeric type.
 	default:
@@ -465,7 +467,7 @@ func (check typecheck) index(n *node, max int) error {
 		return n.cfgErrorf("index %s must not be negative", n.typ.id())
 	}
 
-	if max < 1 {
+	if max < 0 {
 		return nil
 	}
 
@@ -480,6 +482,9 @@ func (check typecheck) index(n *node, max int) error {
 func (check typecheck) arrayLitExpr(child []*node, typ *itype) error {
 	cat := typ.cat
 	length := typ.length
+	if cat != arrayT {
+		length = -1 // A slice literal has no bound.
+	}
 	typ = typ.val
 	visited := make(map[int]bool, len(child))
 	index := 0
